@@ -14,9 +14,28 @@ def concerns(sig, text):
             or ":panic" in sig or "alloc:balance" in sig)
 
 
+def concerns_proto(sig, text):
+    return (".inject" in sig or "watchdog" in sig or ":exit-" in sig or ":asan" in sig or ":ubsan" in sig or ":panic" in sig
+            or "alloc:balance" in sig)
+
+
 def run(v, tier, rng):
     run_wire(v, tier, concerns, [("Framing_sim.cfg", "pull", 4, [(1, 1), (1, 0), (1000, 3)], 300),
                                  ("Framing0_sim.cfg", "pull", 0, [(1, 1), (1, 0)], 200)])
     n = run_udp(v, tier, lambda sig, text: True)
+    # hostile protocol headers (missing or malformed request/survey ids, backtraces beyond the hop limit or the header capacity,
+    # PAIR1 hop words): the peers of the protocol specifications inject every such class; this check keeps crashes, hangs, leaks
+    # and wrong outcomes of the injections themselves
+    from checks.agg import Only
+    from checks import c04, c08, c13
+    import random
+    px = Only(v, concerns_proto, 0.3 if tier != "thorough" else 1.0)
+    keep = (v.cov.get("distinct_nontrivial", 0), v.cov.get("rule", ""))
+    c04.rep_part(px, tier == "thorough", mc=False)
+    c08.run(px, tier, random.Random(v.seed))
+    c13.run(px, tier, random.Random(v.seed))
+    v.cov["distinct_nontrivial"], v.cov["rule"] = keep
+    v.cov["rule"] += "; plus the replays of Rep.tla, Pair.tla and Device.tla (hostile protocol headers injected by the peer)"
+    v.cov["divergences_outside_this_property"] = v.cov.get("divergences_outside_this_property", 0) + px.other
     v.cov["distinct_nontrivial"] += n
     v.cov["rule"] += "; plus behaviours of Udp.tla (connection requests good / refresh 0 / wrong protocol, data within and above the limit and lying about its length, wrong version, short, unknown opcode, disconnect, from 3 peers) x scales 1, 1000"
